@@ -17,8 +17,8 @@ Record case := {
   c_base : C19.case;
   c_entries_strict : option (list obs_entry);    (* None = not comparable (pint comments present) or pipeline failed *)
   c_entries_relaxed : option (list obs_entry);
-  c_lone_cr : bool;                              (* the file is in a known class where yaml.v3 coordinates leave the file:
-                                                    C02-lone-cr (CR without LF, NEL, LS, PS) or C02-eof-implicit-null *)
+  c_lone_cr : bool;                              (* the file is in the known class where yaml.v3 coordinates leave the file:
+                                                    C02-lone-cr (CR without LF, NEL, LS, PS) *)
   c_expand : list (Z * Z * option (list Z))      (* (First, Last, what the real diags.LineRange.Expand returned; None = panic) *)
 }.
 
@@ -33,8 +33,9 @@ Definition expand_ok_b (x : Z * Z * option (list Z)) : bool :=
 
 (** The hypothesis of the theorems C02_lines_* (Properties/C02.v), checked on the forest yaml.v3 actually returned:
     every node coordinate and the yaml error line (if any) are inside the file, T = number of lines the content
-    reader counted.  The classes of real files where it fails are the open known findings C02-lone-cr and
-    C02-eof-implicit-null (class predicates computed by the harness: [c_lone_cr]). *)
+    reader counted.  The one class of real files where it fails is the open known finding C02-lone-cr (class
+    predicate computed by the harness: [c_lone_cr]); the second class it discovered, implicit nulls after the end of
+    the input, is repaired by 5430596 (clampLines, applied by VerifForest before the forest is serialised). *)
 Definition hyp_fits (c : case) : bool :=
   let b := c_base c in
   let T := List.length (c_lines b) in
